@@ -33,6 +33,7 @@ def Inv (o : Opts) (t : Ty) (f : Nat) (bs : Bytes) (v : Val) (r : Bytes) : Prop 
 theorem readAtom_inv (o : Opts) (hd : DecSideOK o) (bs a r : Bytes) (h : readAtom o bs = .ok (a, r)) :
     a.length ≤ 255 ∧ r.length ≤ bs.length := by
   unfold readAtom at h
+  simp only [lenLt_eq, decide_eq_true_eq] at h
   split at h
   · simp at h
   · rename_i id r0 h16
@@ -58,7 +59,7 @@ theorem timeValid_len (bs : Bytes) (h : timeValid bs = true) : bs.length < 256 :
 theorem decLeaf_inv (o : Opts) (hd : DecSideOK o) (t : Ty) (bs : Bytes) (v : Val) (r : Bytes)
     (h : decLeaf o t bs = .ok (v, r)) :
     v.depth = 1 ∧ r.length ≤ bs.length ∧ ((t = .error ∧ v = .nil) ∨ (encLeaf o t v).isSome = true) := by
-  cases t <;> simp only [decLeaf] at h
+  cases t <;> simp only [decLeaf, lenLt_eq, decide_eq_true_eq] at h
   case bool =>
     cases bs <;> simp [decLeaf] at h
     obtain ⟨rfl, rfl⟩ := h
@@ -133,7 +134,7 @@ theorem decLeaf_inv (o : Opts) (hd : DecSideOK o) (t : Ty) (bs : Bytes) (v : Val
     cases bs with
     | nil => simp [decLeaf] at h
     | cons l r0 =>
-      simp only [decLeaf] at h
+      simp only [decLeaf, lenLt_eq, decide_eq_true_eq] at h
       split at h; · simp at h
       split at h <;> simp at h
       rename_i hv
@@ -292,6 +293,7 @@ theorem tagTy_encodable (b : UInt8) (t : Ty) (h : tagTy b = some t) : t.encodabl
 theorem getReg_inv (o : Opts) (hd : DecSideOK o) (bs : Bytes) (t : Ty) (r : Bytes) (h : getReg o bs = .ok (t, r)) :
     t.encodable = true ∧ t ≠ .any ∧ r.length ≤ bs.length := by
   unfold getReg at h
+  simp only [lenLt_eq, decide_eq_true_eq] at h
   split at h; · simp at h
   rename_i n r0 h16
   obtain ⟨_, hl⟩ := rd16_inv _ _ _ h16
@@ -314,7 +316,7 @@ theorem decTy_encodable (o : Opts) (hd : DecSideOK o) : ∀ (f : Nat) (bs : Byte
   | 0, bs, t, r, h => by simp [decTy] at h
   | f+1, [], t, r, h => by simp [decTy] at h
   | f+1, b :: r0, t, r, h => by
-    simp only [decTy] at h
+    simp only [decTy, lenLt_eq, decide_eq_true_eq] at h
     split at h
     · split at h
       · rename_i k fk hk
@@ -363,7 +365,7 @@ theorem getDecoder_inv (o : Opts) (hd : DecSideOK o) (dt : Bool) (bs : Bytes) (t
   cases bs with
   | nil => simp [getDecoder] at h
   | cons b r0 =>
-    simp only [getDecoder] at h
+    simp only [getDecoder, lenLt_eq, decide_eq_true_eq] at h
     split at h
     · split at h
       · rename_i t' r' hg
@@ -395,7 +397,7 @@ theorem getDecoder_nil_inv (o : Opts) (dt : Bool) (bs : Bytes) (r : Bytes) (dt' 
   cases bs with
   | nil => simp [getDecoder] at h
   | cons b r0 =>
-    simp only [getDecoder] at h
+    simp only [getDecoder, lenLt_eq, decide_eq_true_eq] at h
     split at h
     · split at h <;> simp at h
     · split at h
